@@ -57,6 +57,8 @@ pub fn factor(n: Uint, alg: Algo, prefs: &Preferences) -> (r: Result<Vec<Uint>, 
     requires
         small_algo(alg) ==> uv(n) < 0x1_0000_0000_0000_0000,
         alg is Rho ==> uv(n) <= 0xffff_ffff_ffff_ffc0,
+        // the supported size (ZmodN::new and hence pseudoprime accept at most 512 bits)
+        uv(n) < vstd::arithmetic::power2::pow2(512),
     ensures
         r is Ok ==> {
             let v = r->Ok_0;
@@ -88,6 +90,7 @@ pub fn factor(n: Uint, alg: Algo, prefs: &Preferences) -> (r: Result<Vec<Uint>, 
     factor_impl(nred, alg, prefs, &mut factors, tpool);
     proof { lemma_factor_compose(f1, factors@, uv(n), uv(nred)); }
 
+    proof { lemma_bitlen_le(uv(n), 512); }
     check_factors(&n, &factors)?;
     let ghost f0 = factors@;
     ol_sort(&mut factors);
